@@ -3,12 +3,12 @@
 P="$1"; ID="$2"; TIER="${3:-quick}"
 cd /repo || exit 9
 if ! git apply --check "$P" 2>/dev/null; then
-  if ! git apply --3way "$P" >/dev/null 2>&1; then echo "PATCH DOES NOT APPLY: $P"; git checkout -q -- . ; git reset -q; exit 8; fi
+  if ! git apply --3way "$P" >/dev/null 2>&1; then echo "PATCH DOES NOT APPLY: $P"; git reset -q --hard HEAD; exit 8; fi
   git reset -q
 else
   git apply "$P"
 fi
 cd /verif && ./check "$ID" "$TIER" > /tmp/mut_out.txt 2>&1; RC=$?
 echo "== $P on $ID: rc=$RC"; grep -m3 "violation:\|INCONCLUSIVE\|KNOWN" /tmp/mut_out.txt | cut -c1-300
-cd /repo && git checkout -q -- . && git status --short | grep -v "^??" | head -3
+cd /repo && git reset -q --hard HEAD && git status --short | grep -v "^??" | head -3
 exit 0
